@@ -240,7 +240,10 @@ def build_catalogue():
                 continue
             for extra in ((), ("no_float_leading_zeros", "no_integer_leading_zeros"), ("required_integer_digits",)):
                 name = f"SP_R{r}_{'P%c' % pfx if pfx and chr(pfx).isalnum() else ('P%02x' % pfx if pfx else '')}{'S%c' % sfx if sfx and chr(sfx).isalnum() else ('S%02x' % sfx if sfx else '')}_{'c' * len(cs)}{len(extra)}_{len(ps)}"
-                f = syn(name, on=cs + extra, radix=r, prefix=pfx, suffix=sfx, floats=("f64", "f32"), ints=("i32", "u64"))
+                # the plain variant of every prefix/suffix layout gets all 12 integer types (the suffix letter is
+                # looked for at type-dependent block boundaries of the integer parser)
+                all_ints = ("u8", "u16", "u32", "u64", "u128", "usize", "i8", "i16", "i32", "i64", "i128", "isize")
+                f = syn(name, on=cs + extra, radix=r, prefix=pfx, suffix=sfx, floats=("f64", "f32"), ints=all_ints if (not cs and not extra) else ("i32", "u64"))
                 ps.append(f)
                 cat.append(f)
     # hex float with prefix (C-style) and mixed base
@@ -321,6 +324,28 @@ def build_catalogue():
     cat.append(sepfmt("SEP_R16B2_ILTC", [x for comp in comps for x in mode_flags(comp, 7, True)], radix=16, floats=("f64",), ints=()))
     cat[-1].base = 2
     cat[-1].eradix = 10
+    # exponent separators where the exponent digits are written in another radix than the mantissa digits
+    # (every restricted exponent mode: the look-around of a separator must judge exponent digits in the
+    # exponent radix) - added after two authors of seeded changes saw `1.4p1_9` rejected for an octal mantissa
+    for (rad, base, erad, tag) in [(16, 2, 10, "R16B2E10"), (8, 2, 10, "R8B2E10"), (10, 10, 16, "R10E16"), (16, 16, 10, "R16E10")]:
+        for (mask, c) in modes:
+            f = sepfmt(f"SEP_{tag}_EXP_{mode_tag(mask, c)}", mode_flags("exponent", mask, c), radix=rad, floats=("f64",), ints=())
+            f.base = base
+            f.eradix = erad
+            cat.append(f)
+    for (mask, c) in [(1, False), (2, False), (4, False), (3, True)]:
+        fl = [x for comp in comps for x in mode_flags(comp, mask, c)]
+        f = sepfmt(f"SEP_R16B2E10_ALL_{mode_tag(mask, c)}", fl, radix=16, floats=("f64", "f32"), ints=("u32", "i64"))
+        f.base = 2
+        f.eradix = 10
+        cat.append(f)
+    # base prefix / suffix with restricted separator modes
+    for (mask, c) in [(1, False), (2, False), (4, False), (3, False), (5, True), (6, False)]:
+        fl = [x for comp in comps for x in mode_flags(comp, mask, c)]
+        f = sepfmt(f"SEP_PFX_R16_{mode_tag(mask, c)}", fl, radix=16, floats=("f64",), ints=("u32", "i64"))
+        f.prefix = ord("x")
+        f.suffix = ord("h")
+        cat.append(f)
     # separators combined with syntax flags and prefixes
     combo = [
         ("SEP_SYN_RID_I", ["required_integer_digits"], 1, False),
